@@ -1,5 +1,6 @@
 (* C18 — executable side of the correspondence check.  The Go harnesses
-   (harness/overlay/store/verif_c18_store_test.go, harness/overlay/state/verif_c18_state_test.go)
+   (harness/overlay/store/verif_c18_store_test.go, harness/overlay/state/verif_c18_state_test.go,
+   and for the composite prune of both stores harness/overlay/consensus/verif_c18_prune_test.go)
    run the real BlockStore / state.Store on a memdb behind a recording wrapper and write, per
    case: the operations, the journal of atomic write steps the implementation performed (keys
    and values parsed back into the structured form of Model.v), the result of the Go-side audit
@@ -33,6 +34,7 @@ Definition sval_eqb (a b : sval) : bool :=
   | SVParams l v, SVParams l' v' => (l =? l') && oz_eqb v v'
   | SVABCI, SVABCI => true
   | SVState n, SVState n' => n =? n'
+  | SVLastABCI n, SVLastABCI n' => n =? n'
   | _, _ => false
   end.
 
@@ -266,6 +268,150 @@ Definition resolved_hashes (K : Z) (d : sdb) (lo hi : Z) : list (Z * Z) :=
                  match load_consensus_params d h with Some (Some p) => p | _ => -1 end))
       (seq 0 (Z.to_nat (hi - lo + 1))).
 
+(* ------------------------------------------------------------------ composite prune cases
+   (harness/overlay/consensus/verif_c18_prune_test.go: the real pruneBlocks method of consensus.State
+   over a real store.BlockStore and a real state.Store on two recording / fault-injecting
+   databases, the chain produced by SaveBlock + BlockExecutor.ApplyBlock) *)
+
+Definition xb (s : bstep) : xstep := XB s.
+Definition xs (s : sstep) : xstep := XS s.
+
+Definition xstep_eqb (a b : xstep) : bool :=
+  match a, b with
+  | XB s, XB s' => step_eqb bkey_eqb bval_eqb s s'
+  | XS s, XS s' => step_eqb skey_eqb sval_eqb s s'
+  | _, _ => false
+  end.
+
+(* one step of the node's life:
+   XGenesis: Save(genesis state);
+   XBlock:   SaveBlock(block, parts, seen commit), then ApplyBlock = SaveABCIResponses(h) and
+             Save(state after the block);
+   XPrune:   pruneBlocks(retain) with a fault: fk = 0 none; fk = 1 the process dies at its
+             fn-th database write (0-based: fn writes are performed), both stores re-opened;
+             fk = 2 that write returns an error once (the process goes on with the live stores,
+             unless the code panics on it, after which the stores are re-opened) *)
+Inductive xopT :=
+| XGenesis (st : sstateT)
+| XBlock (b : blockT) (seen : Z * Z) (st : sstateT)
+| XPrune (retain fk fn : Z).
+
+(* result code (0 nil; 1..3 PruneBlocks refused; 7 PruneBlocks failed otherwise; 21..25
+   PruneStates error; 10 SaveBlock panicked / Save failed; 98 panic; 99 crashed), Base(),
+   Height() of the live (or re-opened) block store, number of write steps *)
+Definition xresT := (Z * Z * Z * Z)%type.
+
+Definition xprune_run (K B : Z) (m : mem) (d : xdb) (r fk fn : Z) : Z * mem * list xstep :=
+  let '(c, m1, l) := composite_prune K B m (fst d) (snd d) r in
+  if (0 <? fk) && (0 <=? fn) && (fn <? Z.of_nat (List.length l)) then
+    let l' := firstn (Z.to_nat fn) l in
+    let code := if fk =? 1 then 99
+                else match nth_error l (Z.to_nat fn) with
+                     | Some (XB (SBatch _ _)) => 7       (* batch.WriteSync failed: PruneBlocks returns the error *)
+                     | Some (XB _) => 98                 (* saveState panics *)
+                     | Some (XS _) => 25                 (* batch.Write / WriteSync failed: PruneStates returns the error *)
+                     | None => 97
+                     end in
+    (code, load_state (fst (xreplay l' d)), l')
+  else (c, m1, l).
+
+Definition xop_run (K B : Z) (m : mem) (d : xdb) (o : xopT) : Z * mem * list xstep :=
+  match o with
+  | XGenesis st =>
+    let '(sl, ok) := state_save K (mk_sstate st) in ((if ok then 0 else 10), m, map XS sl)
+  | XBlock b seen st =>
+    match save_block m (mk_block b) (mk_commit seen) with
+    | None => (10, m, [])
+    | Some (m1, bl) =>
+      let '(sl, ok) := state_save K (mk_sstate st) in
+      ((if ok then 0 else 10), m1, map XB bl ++ map XS (save_abci (b_height (mk_block b)) ++ sl))
+    end
+  | XPrune r fk fn => xprune_run K B m d r fk fn
+  end.
+
+Fixpoint run_xops (K B : Z) (m : mem) (d : xdb) (ops : list xopT) : list xresT * list xstep :=
+  match ops with
+  | [] => ([], [])
+  | o :: r =>
+    let '(code, m', l) := xop_run K B m d o in
+    let '(rs, js) := run_xops K B m' (xreplay l d) r in
+    ((code, m_base m', m_height m', Z.of_nat (List.length l)) :: rs, l ++ js)
+  end.
+
+Fixpoint xprefixes (l : list xstep) (d : xdb) : list xdb :=
+  match l with
+  | [] => [d]
+  | s :: r => d :: xprefixes r (xapply d s)
+  end.
+
+(* the journal prefixes at which both stores are audited: after every operation, and after every
+   write step of a pruneBlocks *)
+Fixpoint audit_points (ops : list xopT) (res : list xresT) (start : Z) : list Z :=
+  match ops, res with
+  | o :: ops', (_, _, _, n) :: res' =>
+    (match o with
+     | XPrune _ _ _ => map (fun i => start + Z.of_nat i) (seq 0 (S (Z.to_nat n)))
+     | _ => [start + n]
+     end) ++ audit_points ops' res' (start + n)
+  | _, _ => []
+  end.
+
+(* an audit: journal prefix, Base(), Height(), block store audit (height, reason), cross-store
+   audit (height, reason) *)
+Definition xauditT := (Z * Z * Z * Z * Z * Z * Z)%type.
+Definition xaudit7 (K : Z) (k : Z) (d : xdb) : xauditT :=
+  let m := load_state (fst d) in
+  let '(bh, br) := audit (fst d) in
+  let '(sh, sr) := xaudit K d in
+  (k, m_base m, m_height m, bh, br, sh, sr).
+Definition xa_eqb (a b : xauditT) : bool :=
+  let '(a1, a2, a3, a4, a5, a6, a7) := a in let '(b1, b2, b3, b4, b5, b6, b7) := b in
+  (a1 =? b1) && (a2 =? b2) && (a3 =? b3) && (a4 =? b4) && (a5 =? b5) && (a6 =? b6) && (a7 =? b7).
+Definition xa_block_ok (a : xauditT) : bool := let '(_, _, _, bh, br, _, _) := a in (bh =? 0) && (br =? 0).
+Definition xa_state_ok (a : xauditT) : bool := let '(_, _, _, _, _, sh, sr) := a in (sh =? 0) && (sr =? 0).
+Definition xres_eqb (a b : xresT) : bool :=
+  let '(a1, a2, a3, a4) := a in let '(b1, b2, b3, b4) := b in
+  (a1 =? b1) && (a2 =? b2) && (a3 =? b3) && (a4 =? b4).
+
+(* pruneBlocks(retain) on the store [old base, height]:
+   - no fault injected: retain <= old base: nil error, nothing written; old base < retain <= height:
+     nil error, base = retain, height unchanged, and of the state records of the pruned heights
+     [old base, retain) only those PruneStates must keep for the record of [retain]
+     (LastHeightChanged and the last checkpoint) are left; retain > height: nothing written;
+   - fault injected but the call completed with a nil error: as above *)
+Definition states_removed_ok (K : Z) (sd' : sdb) (lo hi : Z) : bool :=
+  let keepV := match load_vals_info sd' hi with
+               | Some (l, None) => [l; last_stored_height_for K hi l] | _ => [] end in
+  let keepP := match load_params_info sd' hi with Some (l, None) => [l] | _ => [] end in
+  forallb (fun i => let h := lo + Z.of_nat i in
+                    match sget sd' (SKABCI h) with None => true | _ => false end
+                    && match sget sd' (SKVals h) with None => true | _ => zmem h keepV end
+                    && match sget sd' (SKParams h) with None => true | _ => zmem h keepP end)
+          (seq 0 (Z.to_nat (hi - lo))).
+
+Fixpoint xprune_monitor (K : Z) (ops : list xopT) (res : list xresT) (dbs : list xdb) : bool :=
+  match ops, res with
+  | o :: ops', (code, base, height, n) :: res' =>
+    let d := hd ([], []) dbs in
+    let dbs' := skipn (Z.to_nat n) dbs in
+    let d' := hd ([], []) dbs' in
+    xprune_monitor K ops' res' dbs' &&
+    match o with
+    | XPrune r fk _ =>
+      let old := load_state (fst d) in
+      let done := (base =? r) && (height =? m_height old) && states_removed_ok K (snd d') (m_base old) r in
+      if fk =? 0 then
+        if r <=? m_base old then (code =? 0) && (n =? 0)
+        else if r <=? m_height old then (code =? 0) && done
+        else n =? 0
+      else if code =? 0 then
+        (if r <=? m_base old then n =? 0 else done)
+      else true
+    | _ => true
+    end
+  | _, _ => true
+  end.
+
 Inductive case :=
 (* block store history with crash points *)
 | CHist (ops : list bopT) (res_i : list bresT) (steps_i : list bstep)
@@ -282,7 +428,13 @@ Inductive case :=
          (skip : Z) (steps_i : list sstep)       (* the journal without its first [skip] steps (large case: the model's steps stand in for them) *)
          (ranges_rle : list (Z * Z * Z)) (audits_rle : list (Z * Z * Z))
          (tlo : Z) (truth : list (Z * Z)) (resolved_i : list (Z * Z))
-         (final_i : list (skey * sval)).
+         (final_i : list (skey * sval))
+(* history of a node over both stores with composite prunes; the journal of both databases,
+   the Go audits (real loaders on both stores re-opened from the journal prefix) at the audit
+   points, the final contents of both databases *)
+| CComp (ops : list xopT) (res_i : list xresT) (steps_i : list xstep)
+        (audits_i : list xauditT)
+        (finalb_i : list (bkey * bval)) (finals_i : list (skey * sval)).
 
 Definition B := prune_batch.
 Definition K := valset_checkpoint_interval.
@@ -342,4 +494,24 @@ Definition check (c : case) : verdict :=
       mism (list_eqb zz_eqb (map (fun '(d, r) => saudit_at K d r) (combine dbs ranges)) audits_i) 23;
       mism (list_eqb zz_eqb (resolved_hashes K dfin (fst last_rng) (snd last_rng)) resolved_i) 24;
       mism (kv_equiv skey_eqb sval_eqb dfin final_i) 25 ]
+  | CComp ops res_i steps_i audits_i finalb_i finals_i =>
+    let m0 := {| m_base := 0; m_height := 0 |} in
+    let d0 : xdb := ([], []) in
+    let '(res_m, steps_m) := run_xops K B m0 d0 ops in
+    let dbs := xprefixes steps_i d0 in
+    let pts := audit_points ops res_i 0 in
+    let auds := map (fun k => xaudit7 K k (nth (Z.to_nat k) dbs d0)) pts in
+    let dfin := last dbs d0 in
+    first_of [
+      (* the property on the implementation's answers *)
+      viol (forallb xa_block_ok audits_i) 1;
+      viol (forallb xa_state_ok audits_i) 30;
+      viol (forallb xa_block_ok auds) 2;
+      viol (forallb xa_state_ok auds) 31;
+      viol (xprune_monitor K ops res_i dbs) 32;
+      (* model vs implementation *)
+      mism (list_eqb xstep_eqb steps_m steps_i) 41;
+      mism (list_eqb xres_eqb res_m res_i) 42;
+      mism (list_eqb xa_eqb auds audits_i) 43;
+      mism (kv_equiv bkey_eqb bval_eqb (fst dfin) finalb_i && kv_equiv skey_eqb sval_eqb (snd dfin) finals_i) 44 ]
   end.
